@@ -161,8 +161,14 @@ fn observe_slice(bytes: &[u8], strndx: u64) -> Result<Seen, String> {
 }
 
 fn observe_stream(bytes: &Arc<Vec<u8>>, strndx: u64) -> Result<Seen, String> {
+    observe_stream_at(bytes, strndx, 0)
+}
+
+/// `pos`: where the reader stands when it is handed to open_stream
+fn observe_stream_at(bytes: &Arc<Vec<u8>>, strndx: u64, pos: u64) -> Result<Seen, String> {
     subject(|| {
         let (rd, _st) = EnvReader::new(bytes.clone());
+        _st.lock().unwrap().pos = pos;
         let mut f = match Stream::open_stream(rd) {
             Ok(f) => f,
             Err(_) => return Seen { opened: false, shdrs: None, phdrs: None, strtab: None },
@@ -376,6 +382,14 @@ impl Space for Numbering {
         let arc = Arc::new(img.bytes);
         judge(&ctx, "ElfBytes", observe_slice(&arc, strndx), &ws, out);
         judge(&ctx, "ElfStream", observe_stream(&arc, strndx), &wst, out);
+        if arc.len() < 100_000 {
+            // a reader that is not at offset 0 when handed over (the caller sniffed the magic, or
+            // measured the length) locates the same tables
+            let l = arc.len() as u64;
+            for pos in [16, l / 2, l] {
+                judge(&format!("{ctx} reader at {pos}"), "ElfStream", observe_stream_at(&arc, strndx, pos), &wst, out);
+            }
+        }
         if ws.opened {
             out.nontrivial(idx);
             out.count("opens");
